@@ -616,7 +616,141 @@ Qed.
 Theorem models3d_length (dfs : list (list T)) (sigs : list (list Sg)) :
   length (models3d dS dT dfs sigs) = length sigs.
 Proof. unfold models3d. rewrite map_length. apply seq_length. Qed.
+
+Lemma models3d_row_length (dfs : list (list T)) (sigs : list (list Sg)) (i : nat) :
+  i < length sigs -> length (nth i (models3d dS dT dfs sigs) []) = length (nth i sigs []).
+Proof.
+  intros Hi. unfold models3d. rewrite nth_map_seq0 by exact Hi. rewrite map_length. apply seq_length.
+Qed.
+
+(** G9: the BycycleGroup OBJECT over any history of fits.  A fit REPLACES tables and models: after any
+    sequence of fits the object holds exactly what a fresh object fitted on the LAST array holds, and
+    that has the last array's shape and contents. *)
+Lemma gobj_fit_ignores_state (o o' : @gobj Sg T) (f : @gfit K Sg) :
+  gobj_fit cf epochs dK dS dT o f = gobj_fit cf epochs dK dS dT o' f.
+Proof. destruct f; reflexivity. Qed.
+
+Theorem gobj_refit_replaces (o : @gobj Sg T) (fits : list (@gfit K Sg)) (f : @gfit K Sg) :
+  gobj_run cf epochs dK dS dT o (fits ++ [f]) = gobj_fit cf epochs dK dS dT Unfitted f.
+Proof.
+  unfold gobj_run. rewrite fold_left_app. cbn [fold_left]. apply gobj_fit_ignores_state.
+Qed.
+
+Theorem gobj_last_fit_2d (o : @gobj Sg T) (fits : list (@gfit K Sg))
+  (sigma : list nat) (spec : kwspec) (sigs : list Sg) :
+  Permutation sigma (seq 0 (length sigs)) ->
+  exists dfs models,
+    gobj_run cf epochs dK dS dT o (fits ++ [Fit2 sigma spec sigs]) = Fitted2 dfs models /\
+    length dfs = length sigs /\ length models = length sigs /\
+    forall i, i < length sigs ->
+      nth i dfs dT = cf (kw_for dK spec i) (nth i sigs dS) /\
+      nth i models (dT, dS) = (cf (kw_for dK spec i) (nth i sigs dS), nth i sigs dS).
+Proof.
+  intros Hperm. rewrite gobj_refit_replaces. cbn [gobj_fit].
+  eexists. eexists. split; [reflexivity|].
+  split; [apply group2d_axis0_length; exact Hperm|].
+  split; [apply models2d_length|].
+  intros i Hi. rewrite models2d_spec by exact Hi.
+  rewrite (group2d_axis0_nth sigma spec sigs i Hperm Hi). split; reflexivity.
+Qed.
+
+Theorem gobj_last_fit_3d_axis01 (o : @gobj Sg T) (fits : list (@gfit K Sg))
+  (sigma : list nat) (spec : kwspec) (sigs : list (list Sg)) (n1 : nat) :
+  Permutation sigma (seq 0 (length (concat sigs))) ->
+  (forall row, In row sigs -> length row = n1) ->
+  exists dfs models,
+    gobj_run cf epochs dK dS dT o (fits ++ [Fit3 2 sigma spec sigs n1]) = Fitted3 dfs models /\
+    length dfs = length sigs /\ length models = length sigs /\
+    forall i, i < length sigs ->
+      length (nth i dfs []) = n1 /\ length (nth i models []) = n1 /\
+      forall j, j < n1 ->
+        nth j (nth i dfs []) dT = cf (kw_for dK spec (i * n1 + j)) (nth j (nth i sigs []) dS) /\
+        nth j (nth i models []) (dT, dS) =
+        (cf (kw_for dK spec (i * n1 + j)) (nth j (nth i sigs []) dS), nth j (nth i sigs []) dS).
+Proof.
+  intros Hperm Hrect. rewrite gobj_refit_replaces. cbn [gobj_fit fit3_tables].
+  eexists. eexists. split; [reflexivity|].
+  split; [apply group3d_axis01_length|].
+  split; [apply models3d_length|].
+  intros i Hi.
+  assert (Hrow : length (nth i sigs []) = n1) by (apply Hrect; apply nth_In; exact Hi).
+  split; [apply (group3d_axis01_shape sigma spec sigs n1); exact Hi|].
+  split; [rewrite models3d_row_length by exact Hi; exact Hrow|].
+  intros j Hj.
+  rewrite models3d_spec by (try exact Hi; rewrite Hrow; exact Hj).
+  rewrite (group3d_axis01_spec sigma spec sigs n1 i j Hperm Hrect Hi Hj). split; reflexivity.
+Qed.
+
+Theorem gobj_last_fit_3d_axis0 (o : @gobj Sg T) (fits : list (@gfit K Sg))
+  (sigma : list nat) (spec : kwspec) (sigs : list (list Sg)) (n1 : nat) :
+  Permutation sigma (seq 0 (length sigs)) ->
+  (forall row, In row sigs -> length row = n1) ->
+  (forall k sl, length (epochs k sl) = length sl) ->
+  exists dfs models,
+    gobj_run cf epochs dK dS dT o (fits ++ [Fit3 0 sigma spec sigs n1]) = Fitted3 dfs models /\
+    length dfs = length sigs /\ length models = length sigs /\
+    forall i, i < length sigs ->
+      length (nth i dfs []) = n1 /\ length (nth i models []) = n1 /\
+      nth i dfs [] = epochs (kw_for dK spec i) (nth i sigs []) /\
+      forall j, j < n1 ->
+        nth j (nth i models []) (dT, dS) =
+        (nth j (epochs (kw_for dK spec i) (nth i sigs [])) dT, nth j (nth i sigs []) dS).
+Proof.
+  intros Hperm Hrect Hep. rewrite gobj_refit_replaces. cbn [gobj_fit fit3_tables].
+  eexists. eexists. split; [reflexivity|].
+  split; [apply group3d_axis0_length; exact Hperm|].
+  split; [apply models3d_length|].
+  intros i Hi.
+  assert (Hrow : length (nth i sigs []) = n1) by (apply Hrect; apply nth_In; exact Hi).
+  split; [apply group3d_axis0_row_length; assumption|].
+  split; [rewrite models3d_row_length by exact Hi; exact Hrow|].
+  split; [apply group3d_axis0_nth; assumption|].
+  intros j Hj.
+  rewrite models3d_spec by (try exact Hi; rewrite Hrow; exact Hj).
+  rewrite (group3d_axis0_nth sigma spec sigs i Hperm Hi). reflexivity.
+Qed.
+
+Theorem gobj_last_fit_3d_axis1 (o : @gobj Sg T) (fits : list (@gfit K Sg))
+  (sigma : list nat) (spec : kwspec) (sigs : list (list Sg)) (n1 : nat) :
+  Permutation sigma (seq 0 n1) ->
+  (forall row, In row sigs -> length row = n1) ->
+  (forall k sl, length (epochs k sl) = length sl) ->
+  exists dfs models,
+    gobj_run cf epochs dK dS dT o (fits ++ [Fit3 1 sigma spec sigs n1]) = Fitted3 dfs models /\
+    length dfs = length sigs /\ length models = length sigs /\
+    forall i, i < length sigs ->
+      length (nth i dfs []) = n1 /\ length (nth i models []) = n1 /\
+      forall j, j < n1 ->
+        nth j (nth i dfs []) dT =
+        nth i (epochs (kw_for dK spec j) (map (fun row => nth j row dS) sigs)) dT /\
+        nth j (nth i models []) (dT, dS) =
+        (nth i (epochs (kw_for dK spec j) (map (fun row => nth j row dS) sigs)) dT,
+         nth j (nth i sigs []) dS).
+Proof.
+  intros Hperm Hrect Hep. rewrite gobj_refit_replaces. cbn [gobj_fit fit3_tables].
+  eexists. eexists. split; [reflexivity|].
+  split; [apply group3d_axis1_length|].
+  split; [apply models3d_length|].
+  intros i Hi.
+  assert (Hrow : length (nth i sigs []) = n1) by (apply Hrect; apply nth_In; exact Hi).
+  split; [apply (group3d_axis1_shape sigma spec sigs n1 Hperm); exact Hi|].
+  split; [rewrite models3d_row_length by exact Hi; exact Hrow|].
+  intros j Hj.
+  rewrite models3d_spec by (try exact Hi; rewrite Hrow; exact Hj).
+  rewrite (group3d_axis1_spec sigma spec sigs n1 i j Hperm Hrect Hep Hi Hj). split; reflexivity.
+Qed.
 End GroupProofs.
+
+(** the correspondence instance: the tables of the object after a history are those of the function
+    called on the last array *)
+Lemma run_group_object_tables (h : list gcase) (g : gcase) :
+  fst (run_group_object (h ++ [g])) = run_group g.
+Proof.
+  unfold run_group_object. rewrite map_app. cbn [map].
+  rewrite gobj_refit_replaces.
+  destruct g as [sigma kw n0 | ax sigma kw n0 n1]; [reflexivity|].
+  destruct ax as [|[|ax]]; reflexivity.
+Qed.
 
 (* ------------------------------------------------------------------------------------------ *)
 (** * G5b (Legacy): the pre-repair back-index [i + j] misplaces results *)
@@ -698,4 +832,10 @@ Proof. vm_compute. repeat split. Qed.
 
 (** the permutation hypothesis of G1 is needed: a task that never completes blocks the output *)
 Example pool_imap_needs_all_tasks : pool_imap [1] (fun x : nat => x) [10; 20] 0 = [].
+Proof. vm_compute. reflexivity. Qed.
+
+(** a re-fitted object: 3 x 2 array along axis (0,1), then a 2-row 2-D array - nothing of the first fit is left *)
+Example run_group_object_refit_example :
+  run_group_object [G3 2 [0; 1; 2; 3; 4; 5] GShared 3 2; G2 [1; 0] GShared 2] =
+  ([[id_cf 999 0; id_cf 999 1]], [[(id_cf 999 0, 0); (id_cf 999 1, 1)]]).
 Proof. vm_compute. reflexivity. Qed.
